@@ -427,7 +427,7 @@ def run(ctx: lib.Ctx) -> None:
                                                            'repro': f'Interpreter().execute({annotated!r}) vs Interpreter().execute({plain!r})'}, found=True)
             violations += 1
     cases, meta, mcases, mmeta = [], [], [], []
-    nprog = ctx.n(200, 3000)
+    nprog = ctx.n(200, 2000)
     for _ in range(nprog):
         prog = gen_program(rng)
         twins = []
